@@ -302,6 +302,21 @@ def commands_hold_lock(R, fails, stats):
             elif rc != 0:
                 fails.append({"why": f"'{cmd}' failed in the holder-trace scenario: {e.decode('utf-8', 'replace')[-200:]}", **ctx})
                 continue
+            # the lock is gone once the holder has exited after SIGINT / SIGTERM - also after two of them
+            if cmd in ("rename", "undo") and work_idx:
+                ev = evs[work_idx[min(1, len(work_idx) - 1)]]
+                for label, inj in (("SIGINT twice", f"{ev.sys}:signal=SIGINT:when={ev.ordinal}..{ev.ordinal + 1}"),
+                                   ("SIGTERM then SIGINT", [f"{ev.sys}:signal=SIGTERM:when={ev.ordinal}", f"{ev.sys}:signal=SIGINT:when={ev.ordinal + 1}"]),
+                                   ("SIGINT once", f"{ev.sys}:signal=SIGINT:when={ev.ordinal}")):
+                    with cli.Sandbox(tree) as sb3:
+                        if cmd == "undo":
+                            sb3.run(["--no-auto-init", "-y", "rename", "old_name", "new_name"])
+                        rc3, o3, e3, tr3 = inject.strace_run(sb3, ["--no-auto-init"] + args, inject=inj)
+                        stats["holder_signal_runs"] = stats.get("holder_signal_runs", 0) + 1
+                        R.case(("holder_signal", cmd, label), nontrivial=True)
+                        if (sb3.root / ".renamify" / "renamify.lock").exists():
+                            fails.append({"why": f"the lock file is still there after '{cmd}' was interrupted ({label}) and exited with status {rc3}",
+                                          "cmd": cmd, "inject": inj, "rc": rc3, "stderr": e3.decode("utf-8", "replace")[-300:]})
             if not work_idx:
                 continue
             if not lock_idx:
